@@ -3,8 +3,10 @@
 //! Bounded-exhaustive: every pair (triple) of small tables whose join keys are multisets over
 //! {NULL,1,2,3} (duplicates allowed, payload unique per row) x every query of a join grammar
 //! (INNER/LEFT/RIGHT/FULL/CROSS/comma, ON eq / reversed eq / `<` / `<=` / eq OR false / eq + extra
-//! conjunct, WHERE on either side, 3-way chains, aliases, self join, `SELECT *`, the semi/anti joins
-//! behind IN / EXISTS / NOT EXISTS) x {plain, secondary index on the inner key, PRIMARY KEY on the
+//! conjunct, WHERE on either side, 3-way chains, aliases in every spelling (AS a / no AS / upper and mixed
+//! case / one side only — the key column has the same name in both tables), self join, `SELECT *`,
+//! `SELECT DISTINCT` over select lists that do not tell rows with the same key apart (l.k,r.k | l.k,r.y |
+//! l.x,r.k), the semi/anti joins behind IN / EXISTS / NOT EXISTS) x {plain, secondary index on the inner key, PRIMARY KEY on the
 //! inner key, index on the outer key} x `PRAGMA join_memory_budget` in {default, 65536, 4096, 256, 1, 0}.
 //! Oracle 1 (model): the bag returned by TurDB equals the bag of `refmodel::sql::Query::eval`.
 //! Oracle 2 (budgets): the bag under every budget equals the bag under the default budget.
@@ -213,7 +215,32 @@ enum Form {
     SelfAlias,
     Star,
     StarAlias,
+    /// alias spellings (same join, same columns; the key column `k` exists in both tables):
+    /// `l AS A JOIN r AS B ON A.k = B.k`
+    AliasUpper,
+    /// `l u JOIN r Vv ON u.k = Vv.k` (no AS, mixed case)
+    AliasMixedNoAs,
+    /// `l a JOIN r b ON a.k = b.k` (no AS, lower case)
+    AliasNoAs,
+    /// `l JOIN r AS B ON l.k = B.k` (only the right table aliased, upper case)
+    AliasRightUpper,
+    /// `l AS A JOIN r ON A.k = r.k` (only the left table aliased, upper case)
+    AliasLeftUpper,
+    /// partial select lists (bases of the DISTINCT forms): `SELECT l.k, r.k` | `l.k, r.y` | `l.x, r.k`
+    ProjKeys,
+    ProjLkRy,
+    ProjLxRk,
+    /// `SELECT DISTINCT l.k, r.k` (keys only: duplicate keys give duplicate joined rows)
+    DistinctKeys,
+    /// `SELECT DISTINCT l.k, r.y` (left rows with the same key are not told apart)
+    DistinctLkRy,
+    /// `SELECT DISTINCT l.x, r.k` (right rows with the same key are not told apart)
+    DistinctLxRk,
 }
+const FORMS_ALL: [Form; 16] = [Form::ProjKeys, Form::ProjLkRy, Form::ProjLxRk, Form::Cols, Form::Alias, Form::SelfAlias, Form::Star, Form::StarAlias, Form::AliasUpper, Form::AliasMixedNoAs, Form::AliasNoAs, Form::AliasRightUpper, Form::AliasLeftUpper, Form::DistinctKeys, Form::DistinctLkRy, Form::DistinctLxRk];
+const FORMS_SPELLING: [Form; 5] = [Form::AliasUpper, Form::AliasMixedNoAs, Form::AliasNoAs, Form::AliasRightUpper, Form::AliasLeftUpper];
+const FORMS_DISTINCT: [Form; 3] = [Form::DistinctKeys, Form::DistinctLkRy, Form::DistinctLxRk];
+const FORMS_PROJ: [Form; 3] = [Form::ProjKeys, Form::ProjLkRy, Form::ProjLxRk];
 impl Form {
     fn name(self) -> &'static str {
         match self {
@@ -222,10 +249,57 @@ impl Form {
             Form::SelfAlias => "self-alias",
             Form::Star => "star",
             Form::StarAlias => "star-alias",
+            Form::AliasUpper => "alias-upper",
+            Form::AliasMixedNoAs => "alias-mixed-noas",
+            Form::AliasNoAs => "alias-noas",
+            Form::AliasRightUpper => "alias-right-upper",
+            Form::AliasLeftUpper => "alias-left-upper",
+            Form::ProjKeys => "proj(lk,rk)",
+            Form::ProjLkRy => "proj(lk,ry)",
+            Form::ProjLxRk => "proj(lx,rk)",
+            Form::DistinctKeys => "distinct(lk,rk)",
+            Form::DistinctLkRy => "distinct(lk,ry)",
+            Form::DistinctLxRk => "distinct(lx,rk)",
+        }
+    }
+    /// the same select list without DISTINCT
+    fn undistinct(self) -> Form {
+        match self {
+            Form::DistinctKeys => Form::ProjKeys,
+            Form::DistinctLkRy => Form::ProjLkRy,
+            Form::DistinctLxRk => Form::ProjLxRk,
+            o => o,
+        }
+    }
+    /// name used in signatures: the alias spellings with an upper-case letter are one construct
+    fn sig(self) -> &'static str {
+        match self {
+            Form::AliasUpper | Form::AliasMixedNoAs | Form::AliasRightUpper | Form::AliasLeftUpper => "alias-case",
+            o => o.name(),
+        }
+    }
+    fn is_distinct(self) -> bool {
+        FORMS_DISTINCT.contains(&self)
+    }
+    fn is_proj(self) -> bool {
+        FORMS_PROJ.contains(&self)
+    }
+    fn is_spelling(self) -> bool {
+        FORMS_SPELLING.contains(&self)
+    }
+    /// (left qualifier, left alias, right qualifier, right alias)
+    fn aliases(self) -> (&'static str, Option<&'static str>, &'static str, Option<&'static str>) {
+        match self {
+            Form::Alias | Form::StarAlias | Form::SelfAlias | Form::AliasNoAs => ("a", Some("a"), "b", Some("b")),
+            Form::AliasUpper => ("A", Some("A"), "B", Some("B")),
+            Form::AliasMixedNoAs => ("u", Some("u"), "Vv", Some("Vv")),
+            Form::AliasRightUpper => ("l", None, "B", Some("B")),
+            Form::AliasLeftUpper => ("A", Some("A"), "r", None),
+            _ => ("l", None, "r", None),
         }
     }
     fn parse(s: &str) -> Option<Form> {
-        [Form::Cols, Form::Alias, Form::SelfAlias, Form::Star, Form::StarAlias].into_iter().find(|k| k.name() == s)
+        FORMS_ALL.into_iter().find(|k| k.name() == s)
     }
 }
 
@@ -252,7 +326,7 @@ impl QSpec {
             s.push('&');
             s.push_str(self.on2.name());
         }
-        for extra in [self.wh.sig(), self.form.name()] {
+        for extra in [self.wh.sig(), self.form.sig()] {
             if !extra.is_empty() {
                 s.push('+');
                 s.push_str(extra);
@@ -268,6 +342,10 @@ impl QSpec {
             b.form = Form::Cols;
             if self.form == Form::SelfAlias {
                 return None; // different tables: no base
+            }
+            if self.form.is_distinct() {
+                // DISTINCT builds on the same select list without it
+                b.form = self.form.undistinct();
             }
             return Some(b);
         }
@@ -317,14 +395,16 @@ fn build_query(s: &QSpec, pad_cols: bool, xb: i64, yb: i64) -> (Query, String) {
         let sql = q.to_sql();
         return (q, sql);
     }
-    let (lq, rq, rt, ry) = match s.form {
-        Form::Cols | Form::Star => ("l", "r", "r", "y"),
-        Form::Alias | Form::StarAlias => ("a", "b", "r", "y"),
-        Form::SelfAlias => ("a", "b", "l", "x"),
+    let (lq, la, rq, ra) = s.form.aliases();
+    let (rt, ry) = if s.form == Form::SelfAlias { ("l", "x") } else { ("r", "y") };
+    let lf = match la {
+        Some(a) => From::table_as("l", a),
+        None => From::table("l"),
     };
-    let aliased = !matches!(s.form, Form::Cols | Form::Star);
-    let lf = if aliased { From::table_as("l", lq) } else { From::table("l") };
-    let rf = if aliased { From::table_as(rt, rq) } else { From::table("r") };
+    let rf = match ra {
+        Some(a) => From::table_as(rt, a),
+        None => From::table(rt),
+    };
     let lk = || ex::qcol(lq, "k");
     let rk = || ex::qcol(rq, "k");
     let lx = || ex::qcol(lq, "x");
@@ -353,6 +433,9 @@ fn build_query(s: &QSpec, pad_cols: bool, xb: i64, yb: i64) -> (Query, String) {
     }
     let items: Vec<SelectItem> = match s.form {
         Form::Star | Form::StarAlias => vec![SelectItem::Star(None)],
+        Form::DistinctKeys | Form::ProjKeys => vec![SelectItem::expr(lk()), SelectItem::expr(rk())],
+        Form::DistinctLkRy | Form::ProjLkRy => vec![SelectItem::expr(lk()), SelectItem::expr(rv())],
+        Form::DistinctLxRk | Form::ProjLxRk => vec![SelectItem::expr(lx()), SelectItem::expr(rk())],
         _ => {
             let mut v = vec![lk(), lx()];
             if pad_cols {
@@ -371,6 +454,9 @@ fn build_query(s: &QSpec, pad_cols: bool, xb: i64, yb: i64) -> (Query, String) {
         }
     };
     let mut q = Query::select(items, from);
+    if s.form.is_distinct() {
+        q = q.distinct();
+    }
     let w = match s.wh {
         Wh::None => None,
         Wh::True => Some(ex::eq(ex::int(1), ex::int(1))),
@@ -391,6 +477,10 @@ fn build_query(s: &QSpec, pad_cols: bool, xb: i64, yb: i64) -> (Query, String) {
     let mut sql = q.to_sql();
     if s.kinds.iter().any(|k| *k == Kind::Comma) {
         sql = sql.replace(" CROSS JOIN ", ", ");
+    }
+    if matches!(s.form, Form::AliasMixedNoAs | Form::AliasNoAs) {
+        // `l u JOIN r Vv`: the alias follows the table name directly (the only AS of these queries)
+        sql = sql.replace(" AS ", " ");
     }
     (q, sql)
 }
@@ -437,6 +527,23 @@ fn specs_two(thorough: bool) -> Vec<QSpec> {
     for form in [Form::Alias, Form::SelfAlias, Form::Star, Form::StarAlias] {
         for k in KINDS_ON {
             v.push(QSpec::two(k, On::Eq, Wh::None, form));
+        }
+        v.push(QSpec::two(Kind::Cross, On::None, Wh::None, form));
+    }
+    // alias spellings (upper / mixed case, with and without AS, one side only) of the equi-join
+    for form in FORMS_SPELLING {
+        for k in KINDS_ON {
+            v.push(QSpec::two(k, On::Eq, Wh::None, form));
+        }
+        v.push(QSpec::two(Kind::Cross, On::None, Wh::None, form));
+    }
+    // partial select lists, then SELECT DISTINCT over them (they do not tell rows with the same key apart)
+    for form in FORMS_PROJ.into_iter().chain(FORMS_DISTINCT) {
+        for k in KINDS_ON {
+            v.push(QSpec::two(k, On::Eq, Wh::None, form));
+            if matches!(form, Form::DistinctKeys | Form::ProjKeys) {
+                v.push(QSpec::two(k, On::Lt, Wh::None, form));
+            }
         }
         v.push(QSpec::two(Kind::Cross, On::None, Wh::None, form));
     }
@@ -839,6 +946,8 @@ struct Prepared {
     spec: QSpec,
     sql: String,
     expected: Vec<Row>,
+    /// DISTINCT forms: the same query without DISTINCT has more rows (duplicates are really removed)
+    dups_removed: bool,
 }
 fn prepare(t: &Tabs, specs: &[QSpec], pad_cols: bool) -> Vec<Prepared> {
     let mdb = t.model();
@@ -848,7 +957,11 @@ fn prepare(t: &Tabs, specs: &[QSpec], pad_cols: bool) -> Vec<Prepared> {
             let pc = pad_cols && t.pad > 0 && matches!(s.on, On::Eq | On::EqRev | On::EqConjR | On::EqConjL) && s.kinds[0].has_on();
             let (q, sql) = build_query(s, pc, t.xb, t.yb);
             let r = q.eval(&mdb).unwrap_or_else(|e| panic!("reference model rejects {sql}: {e}"));
-            Prepared { spec: s.clone(), sql, expected: canon_bag(&r.rows) }
+            let dups_removed = s.form.is_distinct() && {
+                let (q_all, _) = build_query(&QSpec { form: Form::Cols, ..s.clone() }, false, t.xb, t.yb);
+                q_all.eval(&mdb).map(|a| a.rows.len() > r.rows.len()).unwrap_or(false)
+            };
+            Prepared { spec: s.clone(), sql, expected: canon_bag(&r.rows), dups_removed }
         })
         .collect()
 }
@@ -902,8 +1015,13 @@ fn run_db(pass: &str, ctx: &Ctx, rep: &mut Reporter, t: &Tabs, v: Variant, prep:
         // quick tier, pairs pass: queries with a WHERE clause run under one budget per class (default, 4096, 0);
         // queries without WHERE (and everything in the thorough tier) run under all six
         let reduced_budget = ctx.quick() && pass == "pairs" && matches!(b, Some(65536) | Some(256) | Some(1));
+        // the alias-spelling and DISTINCT forms: default and 0 only (quick)
+        let reduced_budget2 = ctx.quick() && pass == "pairs" && matches!(b, Some(65536) | Some(4096) | Some(256) | Some(1));
         for (qi, p) in prep.iter().enumerate() {
             if reduced_budget && p.spec.wh != Wh::None {
+                continue;
+            }
+            if reduced_budget2 && (p.spec.form.is_spelling() || p.spec.form.is_distinct() || p.spec.form.is_proj()) {
                 continue;
             }
             if let Some(base) = p.spec.base() {
@@ -941,6 +1059,12 @@ fn run_db(pass: &str, ctx: &Ctx, rep: &mut Reporter, t: &Tabs, v: Variant, prep:
                 None => {
                     rep.outcome(&format!("{}:{}", p.spec.kind_name(), if p.expected.is_empty() { "ok-empty" } else { "ok-rows" }));
                     rep.count("conforming", 1);
+                    if p.spec.form.is_spelling() && !p.expected.is_empty() {
+                        rep.count("conforming_alias_spelling_nonempty", 1);
+                    }
+                    if p.dups_removed {
+                        rep.count("conforming_distinct_with_duplicates_removed", 1);
+                    }
                     if p.expected.iter().any(|r| r.iter().any(|v| v.is_null())) {
                         rep.count("conforming_with_null_in_result", 1);
                     }
@@ -1568,7 +1692,7 @@ impl Check for C17 {
         let mut s = Spec::new(
             PROP,
             "exploration",
-            "Pass pairs: every ordered pair of tables l(k,x), r(k,y) whose key columns are the multisets of <= 3 values over {NULL,1,2,3} (thorough: both insertion orders, 4-row tables against every <= 2-row table and against 3-/4-row tables over {NULL,1,2}), payload unique per row; x physical variants (no index, secondary index on r.k, PRIMARY KEY r.k where the keys allow it; thorough: index on l.k); x every query of the grammar {INNER,LEFT,RIGHT,FULL} x ON {l.k=r.k, l.k<r.k, l.k<=r.k, l.k=r.k OR false, eq AND r.y>c, eq AND l.x>c; thorough: r.k=l.k} and WHERE {none, 1=1, l.x>c, r.y>c, l.k IS NULL, r.k IS NULL, l.k=1, r.k=1} (quick: the WHEREs with ON in {eq, lt, eq AND r.y>c}), CROSS and comma joins with the same WHEREs and with the join predicate in WHERE, semi/anti joins (IN, EXISTS, NOT EXISTS), aliased / self-join / SELECT * forms; x PRAGMA join_memory_budget in {default,65536,4096,256,1,0} (quick: queries with a WHERE clause under default,4096,0 only). Pass chain: all triples of tables over {NULL,1,2} (<= 2 rows, thorough <= 3) x all 25 kind pairs of (l J1 r) J2 m x second ON on r.k or l.k x WHERE {none, m.z>c, m.k IS NULL} x budgets (quick: default,4096,0). Pass pad: 300-row tables with 400-byte payloads, 13 equi-join queries under every budget, files created during the query are counted. Pass op: the executor join operators driven directly on all table pairs (quick: tables of <= 2 rows; NestedLoopJoin 5 kinds x 4 conditions, StreamingHashJoin, GraceHashJoin in memory and with real spill files under 5 budgets) and on the padded tables. One case = one (tables, variant, budget, query) execution compared as a bag with the reference model; non-trivial = the expected bag is non-empty. Queries whose simpler base query already fails on the same tables are pruned and counted.",
+            "Pass pairs: every ordered pair of tables l(k,x), r(k,y) whose key columns are the multisets of <= 3 values over {NULL,1,2,3} (thorough: both insertion orders, 4-row tables against every <= 2-row table and against 3-/4-row tables over {NULL,1,2}), payload unique per row; x physical variants (no index, secondary index on r.k, PRIMARY KEY r.k where the keys allow it; thorough: index on l.k); x every query of the grammar {INNER,LEFT,RIGHT,FULL} x ON {l.k=r.k, l.k<r.k, l.k<=r.k, l.k=r.k OR false, eq AND r.y>c, eq AND l.x>c; thorough: r.k=l.k} and WHERE {none, 1=1, l.x>c, r.y>c, l.k IS NULL, r.k IS NULL, l.k=1, r.k=1} (quick: the WHEREs with ON in {eq, lt, eq AND r.y>c}), CROSS and comma joins with the same WHEREs and with the join predicate in WHERE, semi/anti joins (IN, EXISTS, NOT EXISTS), aliased / self-join / SELECT * forms, the alias spellings {AS A/AS B, u/Vv without AS, a/b without AS, right side only AS B, left side only AS A} of the equi-join and CROSS, SELECT DISTINCT {l.k,r.k (ON eq and lt) | l.k,r.y | l.x,r.k} for the four kinds and CROSS (quick: these under the budgets default and 0); x PRAGMA join_memory_budget in {default,65536,4096,256,1,0} (quick: queries with a WHERE clause under default,4096,0 only). Pass chain: all triples of tables over {NULL,1,2} (<= 2 rows, thorough <= 3) x all 25 kind pairs of (l J1 r) J2 m x second ON on r.k or l.k x WHERE {none, m.z>c, m.k IS NULL} x budgets (quick: default,4096,0). Pass pad: 300-row tables with 400-byte payloads, 13 equi-join queries under every budget, files created during the query are counted. Pass op: the executor join operators driven directly on all table pairs (quick: tables of <= 2 rows; NestedLoopJoin 5 kinds x 4 conditions, StreamingHashJoin, GraceHashJoin in memory and with real spill files under 5 budgets) and on the padded tables. One case = one (tables, variant, budget, query) execution compared as a bag with the reference model; non-trivial = the expected bag is non-empty. Queries whose simpler base query already fails on the same tables are pruned and counted.",
         );
         s.cap_quick_s = 90;
         s.cap_thorough_s = 1500;
@@ -1590,7 +1714,7 @@ impl Check for C17 {
         let tmp = ctx.scratch.join("tmp");
         std::fs::create_dir_all(&tmp).ok();
         std::env::set_var("TMPDIR", &tmp);
-        for c in ["op[StreamingHashJoin]", "op[GraceHashJoin]", "op[NestedLoopJoin]", "op[IndexNestedLoopJoin]", "op[HashSemiJoin]", "op[HashAntiJoin]", "conforming", "conforming_with_null_in_result", "budget_comparisons", "variant_comparisons", "exec[tiny]", "exec[small]", "exec[default]", "pad_queries_watched"] {
+        for c in ["op[StreamingHashJoin]", "op[GraceHashJoin]", "op[NestedLoopJoin]", "op[IndexNestedLoopJoin]", "op[HashSemiJoin]", "op[HashAntiJoin]", "conforming", "conforming_with_null_in_result", "budget_comparisons", "variant_comparisons", "exec[tiny]", "exec[small]", "exec[default]", "pad_queries_watched", "conforming_alias_spelling_nonempty", "conforming_distinct_with_duplicates_removed"] {
             rep.expect_nonzero(c);
         }
         let only = ctx.opt("pass").map(|s| s.to_string());
